@@ -16,6 +16,8 @@ func main() {
 		props.C05(c)
 	case "C18":
 		props.C18(c)
+	case "C12":
+		props.C12(c)
 	default:
 		fmt.Fprintln(os.Stderr, "worker: unknown property", c.Prop)
 		os.Exit(2)
